@@ -63,6 +63,34 @@ pub fn backward_error(c: &[Cmplx], z: Cmplx) -> f64 {
     }
 }
 
+/// inputs on which the Laguerre iteration needs at least this many passes (i.e. got past its second fractional step)
+/// exercise its cycle-breaking machinery
+const HARD_ITER: usize = 21;
+static HARD_OUT: std::sync::OnceLock<String> = std::sync::OnceLock::new();
+static HARD_LOCK: std::sync::Mutex<()> = std::sync::Mutex::new(());
+/// committed corpus of such inputs, found by earlier thorough runs of this monitor on the repaired tree (hook H5)
+const CORPUS: &str = "/verif/corpus/c10_hard.txt";
+
+fn load_corpus() -> Vec<(bool, Vec<Cmplx>)> {
+    let mut out = vec![];
+    if let Ok(text) = std::fs::read_to_string(CORPUS) {
+        for line in text.lines() {
+            let parts: Vec<&str> = line.split_whitespace().collect();
+            if parts.len() != 4 { continue; }
+            let real = parts[1] == "f64";
+            let mut c = vec![];
+            let mut ok = true;
+            for t in parts[3].split(',') {
+                let h: Vec<&str> = t.split(':').collect();
+                if h.len() != 2 { ok = false; break; }
+                match (u64::from_str_radix(h[0], 16), u64::from_str_radix(h[1], 16)) { (Ok(a), Ok(b)) => c.push(Cmplx::new(f64::from_bits(a), f64::from_bits(b))), _ => { ok = false; break; } }
+            }
+            if ok && c.len() >= 5 { out.push((real, c)); }
+        }
+    }
+    out
+}
+
 pub struct Case { pub coeffs: Vec<Cmplx>, pub real: bool, pub class: &'static str, pub known_roots: Option<Vec<Cmplx>> }
 
 fn expand(roots: &[Cmplx], lead: Cmplx) -> Vec<Cmplx> {
@@ -135,6 +163,16 @@ fn judge(st: &mut Stats, case: &Case, refine: bool) {
     // classification key for the iterative path (hook H5): did any Laguerre call hit its iteration cap?
     let lag = if n >= 4 || refine { if log.exhausted > 0 { ":cap-exhausted" } else { ":converged" } } else { "" };
     if n >= 4 { st.count(&format!("laguer-calls:{}", if log.exhausted > 0 { "with-cap-exhausted" } else { "all-converged-or-stalled" })); st.max("laguer:max_iterations_used", log.max_iter as f64); }
+    if n >= 4 && log.max_iter >= HARD_ITER && case.class != "corpus" {
+        st.count("hard-inputs-seen(laguer>=21-iterations)");
+        if let Some(path) = HARD_OUT.get() {
+            use std::io::Write;
+            let _g = HARD_LOCK.lock();
+            if let Ok(mut f) = std::fs::OpenOptions::new().create(true).append(true).open(path) {
+                let _ = writeln!(f, "{} {} {} {}", log.max_iter, if case.real { "f64" } else { "cmplx" }, log.exhausted, c.iter().map(|z| format!("{:016x}:{:016x}", z.real.to_bits(), z.imag.to_bits())).collect::<Vec<_>>().join(","));
+            }
+        }
+    }
     let roots = match out {
         Outcome::Ok(r) => r.vec,
         o => { st.violation(&format!("C10:roots:{}{}:panic", path, lag), format!("{}; {}", o.describe(), desc())); return; }
@@ -189,8 +227,20 @@ pub fn run(ctx: &Ctx) -> Report {
     let (_, log) = with_log(|| Polynomial::new(vec![1.0, -3.0, 0.5, 2.0, 1.0]).roots(true));
     let hook_live = log.calls > 0;
     let units = 12u64 * 11 * 2; // degree x class x {real, complex}
+    if !ctx.quick() { let _ = HARD_OUT.set(format!("{}/c10_hard_candidates.{}.txt", ctx.workdir, ctx.profile)); }
+    let corpus = load_corpus();
+    let corpus_units = ((corpus.len() + 49) / 50) as u64;
     let reps = ctx.vol(12_000, 600_000);
-    let stats = par_run(ctx, TAG, units, |u, rng, st| {
+    let stats = par_run(ctx, TAG, units + corpus_units, |u, rng, st| {
+        if u >= units {
+            let lo = (u - units) as usize * 50;
+            for (real, c) in &corpus[lo..(lo + 50).min(corpus.len())] {
+                let case = Case { coeffs: c.clone(), real: *real, class: "corpus", known_roots: None };
+                judge(st, &case, false);
+                judge(st, &case, true);
+            }
+            return;
+        }
         let n = (u / 22) as usize + 1;
         let class = [0, 1, 2, 3, 4, 5, 6, 7, 8, 9, 10][((u / 2) % 11) as usize];
         let class = if class == 9 { 11 } else { class }; // 11 = x^n+eps*x+c (the default arm)
@@ -203,7 +253,7 @@ pub fn run(ctx: &Ctx) -> Report {
         if u % 22 == 0 { for _ in 0..5 { rejection(st, rng); } }
     });
     let mut rep = Report::new(stats,
-        "degrees 1..12 x {f64, Complex<f64>} x {refine, no refine} x 11 classes (random, sparse wide-scale (half of the coefficients zero, the rest over six decades), coefficient scale ratio up to 1e6, vanishing constant term of multiplicity 1..n, vanishing inner coefficients, well-separated half-integer-lattice roots with exact coefficients, repeated roots, clusters 1e-3 apart, conjugate/purely imaginary pairs, x^n+c, x^n+eps*x+c); per call: n finite values, normwise backward error |p(z)|/(max|a_k| max(1,|z|)^n) in complex double-double <= tau(path), one-to-one matching for the well-separated class; degree-0 and empty polynomials must be rejected. Hook H5 classifies each call by whether a Laguerre iteration hit its cap. Every case non-trivial; distinct = distinct (type,refine,coefficients) hashes");
+        "degrees 1..12 x {f64, Complex<f64>} x {refine, no refine} x 11 classes (random, sparse wide-scale (half of the coefficients zero, the rest over six decades), coefficient scale ratio up to 1e6, vanishing constant term of multiplicity 1..n, vanishing inner coefficients, well-separated half-integer-lattice roots with exact coefficients, repeated roots, clusters 1e-3 apart, conjugate/purely imaginary pairs, x^n+c, x^n+eps*x+c); per call: n finite values, normwise backward error |p(z)|/(max|a_k| max(1,|z|)^n) in complex double-double <= tau(path), one-to-one matching for the well-separated class; degree-0 and empty polynomials must be rejected. Hook H5 classifies each call by whether a Laguerre iteration hit its cap, and (thorough tier) records inputs on which an iteration needs >= 21 passes; a committed corpus of such inputs (corpus/c10_hard.txt, found by this monitor on the repaired tree) is replayed on every run in both refinement modes. Every case non-trivial; distinct = distinct (type,refine,coefficients) hashes");
     rep.assumptions = vec![
         "thresholds: degree 1-2 64u; degree 3 1e-6 plain / 64u refined; degree>=4 1e-8 plain / 1e-12 refined".into(),
         "matching radius 16*tau*max|a|*max(1,|zeta|)^n/|p'(zeta)| (first-order forward error), capped at 0.2".into(),
